@@ -15,6 +15,9 @@ Definition LFb : N := 10.
 Definition lenN (b : bytes) : N := N.of_nat (length b).
 Definition is_nil {A} (l : list A) : bool := match l with [] => true | _ => false end.
 
+(* n copies of x (case files use it to write long runs compactly) *)
+Definition rep_byte (x n : N) : bytes := N.iter n (cons x) [].
+
 (* ------------------------------------------------- generic stage machines *)
 Inductive sres (S O : Type) : Type :=
 | Need                                   (* yield None: wait for more bytes *)
@@ -170,8 +173,10 @@ Fixpoint split1 (sep : N) (l : bytes) : list bytes :=
 
 Fixpoint lstrip (ws : N -> bool) (l : bytes) : bytes :=
   match l with x :: l' => if ws x then lstrip ws l' else l | [] => [] end.
+(* linear-time reverse (List.rev is quadratic); equal to rev by List.rev_alt *)
+Definition frev (l : bytes) : bytes := rev_append l [].
 Definition strip (ws : N -> bool) (l : bytes) : bytes :=
-  rev (lstrip ws (rev (lstrip ws l))).
+  frev (lstrip ws (frev (lstrip ws l))).
 
 (* bytes.strip() with no argument: ASCII whitespace *)
 Definition ws_ascii (x : N) : bool :=
